@@ -224,7 +224,8 @@ func (sh *scriptHop) respond(p *peer, connIdx, reqIdx int, req *wireMsg, w io.Wr
 		head.WriteString("Pragma: no-cache\r\nExpires: Thu, 01 Jan 2032 00:00:00 GMT\r\n")
 	}
 	if u.Hop {
-		head.WriteString("Keep-Alive: timeout=3\r\nConnection: X-Resp-Hop\r\nX-Resp-Hop: 1\r\nProxy-Authenticate: Basic realm=\"up\"\r\n")
+		// (Upgrade: the origin advertises a protocol it could switch to - on an ordinary final response, not a 101)
+		head.WriteString("Keep-Alive: timeout=3\r\nConnection: X-Resp-Hop, Upgrade\r\nX-Resp-Hop: 1\r\nUpgrade: h2c\r\nProxy-Authenticate: Basic realm=\"up\"\r\n")
 	}
 	if u.Gz {
 		head.WriteString("Content-Encoding: gzip\r\n")
@@ -1062,7 +1063,7 @@ func (he *h1Env) sequence(si int, seq []h1Exchange) map[string]any {
 		// the header set as a whole: every end-to-end field the origin sent, with its values in order, and no field
 		// the origin never sent (fields of the framing and of this hop aside; a proxy may add Date and Via)
 		{
-			skip := map[string]bool{"connection": true, "keep-alive": true, "proxy-authenticate": true, "x-resp-hop": true,
+			skip := map[string]bool{"connection": true, "keep-alive": true, "proxy-authenticate": true, "x-resp-hop": true, "upgrade": true,
 				"transfer-encoding": true, "trailer": true, "content-length": true, "content-encoding": true, "date": true, "via": true}
 			sent := map[string][]string{}
 			for _, l := range strings.Split(sc.sentHead, "\r\n")[1:] {
@@ -1108,8 +1109,8 @@ func (he *h1Env) sequence(si int, seq []h1Exchange) map[string]any {
 			}
 		}
 		if ex.Up.Hop {
-			for _, n := range []string{"Keep-Alive", "X-Resp-Hop", "Proxy-Authenticate"} {
-				if n == "X-Resp-Hop" && ex.Up.Fr == "eof" {
+			for _, n := range []string{"Keep-Alive", "X-Resp-Hop", "Proxy-Authenticate", "Upgrade"} {
+				if (n == "X-Resp-Hop" || n == "Upgrade") && ex.Up.Fr == "eof" {
 					// net/http drops the whole Connection field of a response that also says "close",
 					// so the nomination is invisible to the proxy; not demanded by the statement
 					continue
